@@ -239,6 +239,15 @@ func (it *indexedMessageIterator) loadChunk(chunkIndex *ChunkIndex) error {
 	}
 
 	compressedChunkLength := chunkIndex.ChunkLength
+	// the chunk record holds at least its opcode and length, and must lie inside the file
+	if compressedChunkLength < 9 {
+		return fmt.Errorf("chunk index for offset %d has chunk length %d, shorter than a record header",
+			chunkIndex.ChunkStartOffset, compressedChunkLength)
+	}
+	if compressedChunkLength > uint64(it.fileSize)-chunkIndex.ChunkStartOffset {
+		return fmt.Errorf("%w: chunk at %d with length %d extends past file end %d",
+			ErrBadOffset, chunkIndex.ChunkStartOffset, compressedChunkLength, it.fileSize)
+	}
 	if uint64(cap(it.recordBuf)) < compressedChunkLength {
 		newCapacity := int(float64(compressedChunkLength) * chunkBufferGrowthMultiple)
 		it.recordBuf = make([]byte, compressedChunkLength, newCapacity)
@@ -267,6 +276,9 @@ func (it *indexedMessageIterator) loadChunk(chunkIndex *ChunkIndex) error {
 	}
 	chunkSlot := &it.chunkSlots[chunkSlotIndex]
 	bufSize := parsedChunk.UncompressedSize
+	if bufSize >= math.MaxInt32 {
+		return fmt.Errorf("chunk uncompressed size %d: %w", bufSize, ErrLengthOutOfRange)
+	}
 	if uint64(cap(chunkSlot.buf)) < bufSize {
 		chunkSlot.buf = make([]byte, bufSize)
 	} else {
@@ -274,6 +286,9 @@ func (it *indexedMessageIterator) loadChunk(chunkIndex *ChunkIndex) error {
 	}
 	switch CompressionFormat(parsedChunk.Compression) {
 	case CompressionNone:
+		if uint64(len(parsedChunk.Records)) != bufSize {
+			return fmt.Errorf("uncompressed chunk holds %d bytes but declares %d", len(parsedChunk.Records), bufSize)
+		}
 		copy(chunkSlot.buf, parsedChunk.Records)
 	case CompressionZSTD:
 		if it.zstdDecoder == nil {
@@ -285,6 +300,9 @@ func (it *indexedMessageIterator) loadChunk(chunkIndex *ChunkIndex) error {
 		chunkSlot.buf, err = it.zstdDecoder.DecodeAll(parsedChunk.Records, chunkSlot.buf[:0])
 		if err != nil {
 			return fmt.Errorf("failed to decode chunk data: %w", err)
+		}
+		if uint64(len(chunkSlot.buf)) != bufSize {
+			return fmt.Errorf("chunk decompressed to %d bytes but declares %d", len(chunkSlot.buf), bufSize)
 		}
 	case CompressionLZ4:
 		if it.lz4Reader == nil {
